@@ -118,6 +118,29 @@ let canon_table (tbl : table) : string list =
     @ List.map (fun (s, a, t) -> Printf.sprintf "%s,%c:%s" (r s) (Char.chr (65 + a)) (r t)) gotos in
   List.sort Stdlib.compare cells
 
+(* Conflict resolution by precedence can leave states without incoming transitions.  The driver can
+   never enter them (its stack is a path from state 0), and [table_ok] has no labels for them, so the
+   certificate and the replay of the proved driver both use the part of the table reachable from
+   state 0; the implementation's results are compared with the proved driver on that certified part. *)
+let prune_table (tbl : table) : table * int =
+  let reach = Hashtbl.create 32 in
+  Hashtbl.replace reach 0 ();
+  let changed = ref true in
+  while !changed do
+    changed := false;
+    List.iter (fun ((s, _), x) -> match x with
+      | Shift t when Hashtbl.mem reach (int_of_z s) && not (Hashtbl.mem reach (int_of_z t)) ->
+        Hashtbl.replace reach (int_of_z t) (); changed := true
+      | _ -> ()) tbl.t_action;
+    List.iter (fun ((s, _), t) ->
+      if Hashtbl.mem reach (int_of_z s) && not (Hashtbl.mem reach (int_of_z t)) then begin
+        Hashtbl.replace reach (int_of_z t) (); changed := true end) tbl.t_goto
+  done;
+  let keep s = Hashtbl.mem reach (int_of_z s) in
+  let a = List.filter (fun ((s, _), _) -> keep s) tbl.t_action
+  and g = List.filter (fun ((s, _), _) -> keep s) tbl.t_goto in
+  ({ t_action = a; t_goto = g }, List.length tbl.t_action - List.length a)
+
 let slr_fuel = nat_of_int 200
 let big_fuel = nat_of_int 20000
 let sim_fuel = nat_of_int 400
@@ -184,6 +207,7 @@ let () =
             if Hashtbl.length oracle_cache > 64 then Hashtbl.reset oracle_cache;
             Hashtbl.replace oracle_cache key o; o) in
         let tables : (string, parsed_table) Hashtbl.t = Hashtbl.create 3 in
+        let model_tables : (string, table) Hashtbl.t = Hashtbl.create 3 in
         let status : (string, string * int) Hashtbl.t = Hashtbl.create 3 in
         let opno = ref 0 in
         let accepted = ref 0 and rejected = ref 0 and built_ok = ref 0 in
@@ -204,15 +228,21 @@ let () =
               let mk = match mres with BuiltOk _ -> "OK" | BuiltConflict _ -> "CONFLICT" | BuiltError -> "ERR" | BuiltNoFuel -> "NOFUEL" in
               bump ("model_" ^ m ^ "_" ^ mk) 1;
               let gk = if starts_with kind "ERR" then "ERR" else kind in
+              Hashtbl.remove model_tables m;
+              (match mres with BuiltOk mt -> Hashtbl.replace model_tables m mt | _ -> ());
               if mk = "NOFUEL" then ()
               else if (gk = "OK" || gk = "CONFLICT" || gk = "ERR") && gk <> mk then
-                mism !opno "fidelity" (Printf.sprintf "%s construction: implementation %s, modelled construction %s" m gk mk)
+                (* with precedence levels the verdict is property-level: the declaration (handles = first terminal
+                   of a production, as documented and as modelled) decides whether the conflicts are resolved *)
+                mism !opno (if !prec <> "" then "api" else "fidelity")
+                  (Printf.sprintf "%s construction: implementation %s, modelled construction%s %s" m gk
+                     (if !prec <> "" then " (ResolveConflicts with the declared precedence levels)" else "") mk)
               else match mres with
                 | BuiltOk mt when gk = "OK" ->
                   let pt = parse_table (List.tl rt) in
                   (match pt.tbl with
                    | Some gt when pt.raw_conflicts = 0 && pt.bad = None ->
-                     let a = canon_table gt and b = canon_table mt in
+                     let a = canon_table (fst (prune_table gt)) and b = canon_table (fst (prune_table mt)) in
                      if a <> b then begin
                        let only l1 l2 = List.filter (fun x -> not (List.mem x l2)) l1 in
                        mism !opno "fidelity" (Printf.sprintf "%s table differs from the modelled construction after canonical renumbering: only in implementation [%s], only in model [%s]"
@@ -247,7 +277,10 @@ let () =
               setmax "max_states" pt.n;
               (match pt.bad, pt.tbl with
                | Some b, _ -> mism !opno "api" (Printf.sprintf "%s table: %s" m b)
-               | None, Some tbl ->
+               | None, Some tbl0 ->
+                 let tbl, dropped = prune_table tbl0 in
+                 if dropped > 0 then bump "tables_with_unreachable_states" 1;
+                 let pt = { pt with tbl = Some tbl } in
                  if pt.raw_conflicts > 0 then
                    mism !opno "api" (Printf.sprintf "%s construction succeeded but the table has %d cells with several actions" m pt.raw_conflicts)
                  else begin
@@ -277,7 +310,14 @@ let () =
             List.iter (fun r ->
               match split_on r "=" with
               | m :: _ when Hashtbl.mem tables m ->
-                let v = String.sub r (String.length m + 1) (String.length r - String.length m - 1) in
+                let v0 = String.sub r (String.length m + 1) (String.length r - String.length m - 1) in
+                let v, disagree = match String.index_opt v0 '~' with
+                  | Some i -> String.sub v0 0 i, Some (String.sub v0 (i + 1) (String.length v0 - i - 1))
+                  | None -> v0, None in
+                bump "entry_point_configurations_driven" 6;
+                (match disagree with
+                 | Some d -> mism !opno "api" (Printf.sprintf "%s parser on %S: entry points / callback configurations disagree: Parse(tokenF,prodF) gives %s but %s (the verdict, productions and tokens must not depend on the callbacks)" m w (if String.length v > 60 then String.sub v 0 60 else v) d)
+                 | None -> ());
                 let pt = Hashtbl.find tables m in
                 let tbl = match pt.tbl with Some t -> t | None -> assert false in
                 let model = parse big_fuel tbl wt in
@@ -288,11 +328,22 @@ let () =
                   | Hang -> "HANG" in
                 let go_acc = starts_with v "A[" and model_acc = starts_with model_s "A[" in
                 if go_acc then incr accepted else incr rejected;
-                if starts_with v "PANIC" || v = "HANG" then
+                if starts_with v "PANIC" || starts_with v "HANG" then
                   mism !opno "api" (Printf.sprintf "%s parser on %S: %s" m w v)
                 else begin
+                  (* with precedence levels: the parser must behave as the one the modelled construction resolves *)
+                  (if !prec <> "" then match Hashtbl.find_opt model_tables m with
+                    | Some mt ->
+                      let ms = match parse big_fuel mt wt with
+                        | Accepted evs -> "A[" ^ String.concat ";" (List.map string_of_prod (prods_of evs)) ^ "]" ^ string_of_tree (ast_of evs)
+                        | Rejected (rest, _) -> Printf.sprintf "R@%d" (String.length w - List.length rest)
+                        | Hang -> "HANG" in
+                      bump "prec_parses_compared_with_model_table" 1;
+                      if ms <> v then
+                        mism !opno "api" (Printf.sprintf "%s parser on %S: implementation %s; the table resolved by the modelled ResolveConflicts (handle of a production = its first terminal) gives %s" m w v ms)
+                    | None -> ());
                   (match member with
-                   | Some mb when mb <> go_acc ->
+                   | Some mb when mb <> go_acc && (go_acc || !prec = "" || expr_ops <> None) ->
                      mism !opno "api" (Printf.sprintf "%s parser %s %S, which %s a sentence of the grammar"
                        m (if go_acc then "accepts" else "rejects") w (if mb then "is" else "is not"))
                    | _ -> ());
